@@ -1,6 +1,407 @@
 package main
 
+// Contract models for math/big.Int and reflect.Value (DESIGN §2.6), as far as
+// openflow13.NewMatchField / conv / rangeMask / big2byte use them.
+//
+// big.Int keeps its real struct layout {neg bool; abs nat}: abs is held as a slice of bigWords
+// 64-bit word terms (little-endian, NOT normalised — only these intrinsics ever look at it),
+// so pointer identity and in-place mutation of a caller's *big.Int are exact. Magnitudes are
+// bigBits wide; a shift that would lose bits above that width ends the path as out of the
+// model's bound (stated in the evidence).
+
+import (
+	"fmt"
+	"go/types"
+
+	"golang.org/x/tools/go/ssa"
+)
+
+const (
+	bigWords = 4
+	bigBits  = 64 * bigWords
+)
+
 type bigVal struct{ mag *Term }
 
-func registerBigIntrinsics()     {}
-func registerReflectIntrinsics() {}
+func (ex *Exec) bigStruct(v Value, what string) (*StructV, *Panic) {
+	p, ok := v.(*Ptr)
+	if !ok || p.IsNil() {
+		return nil, ex.runtimePanic("nil", "invalid memory address or nil pointer dereference (nil *big.Int in "+what+")")
+	}
+	sv, ok := p.base.get(p.idx).(*StructV)
+	if !ok || len(sv.f) != 2 {
+		panic(ex.unsupported("big.Int with unexpected layout"))
+	}
+	return sv, nil
+}
+
+// bigGet returns (neg, magnitude) of the big.Int struct.
+func (ex *Exec) bigGet(sv *StructV) (*Term, *Term) {
+	ex.noteRead(sv.own)
+	neg := sv.f[0].(*Term)
+	abs := sv.f[1].(*SliceV)
+	mag := ex.ts.Const(bigBits, 0)
+	var acc *Term
+	for i := bigWords - 1; i >= 0; i-- {
+		var w *Term
+		if abs.arr != nil && i < abs.len {
+			w = abs.arr.e[abs.off+i].(*Term)
+		} else {
+			w = ex.ts.Const(64, 0)
+		}
+		if acc == nil {
+			acc = w
+		} else {
+			acc = ex.ts.Concat(acc, w)
+		}
+	}
+	if acc != nil {
+		mag = acc
+	}
+	if abs.arr != nil && abs.len > bigWords {
+		panic(ex.unsupported("big.Int wider than the model"))
+	}
+	return neg, mag
+}
+
+func (ex *Exec) bigSet(sv *StructV, neg, mag *Term) {
+	ex.noteWrite(sv.own)
+	// zero is never negative
+	isZero := ex.ts.Cmp(OpEq, mag, ex.ts.Const(bigBits, 0))
+	neg = ex.ts.And(neg, ex.ts.Not(isZero))
+	arr := ex.newArray(types.Typ[types.Uint], bigWords, "big.Int words")
+	for i := 0; i < bigWords; i++ {
+		arr.e[i] = ex.ts.Extract(mag, uint16(64*i+63), uint16(64*i))
+	}
+	sv.f[0] = neg
+	sv.f[1] = &SliceV{arr: arr, off: 0, len: bigWords, cap: bigWords}
+}
+
+// signed value in bigBits+16 bits two's complement
+func (ex *Exec) bigSigned(neg, mag *Term) *Term {
+	w := uint16(bigBits + 16)
+	m := ex.ts.ZExt(mag, w)
+	return ex.ts.Ite(neg, ex.ts.Neg(m), m)
+}
+
+func (ex *Exec) bigFromSigned(v *Term) (*Term, *Term) {
+	w := v.w
+	neg := ex.ts.Cmp(OpSlt, v, ex.ts.Const(w, 0))
+	abs := ex.ts.Ite(neg, ex.ts.Neg(v), v)
+	return neg, ex.ts.Extract(abs, bigBits-1, 0)
+}
+
+// bigBitLen introduces a fresh variable bl constrained to be the bit length of mag.
+func (ex *Exec) bigBitLen(mag *Term) *Term {
+	if mag.IsConst() {
+		return ex.ts.Const(64, uint64(mag.Big().BitLen()))
+	}
+	ts := ex.ts
+	bl := ex.input(ex.freshName("big.bitlen"), 64)
+	blw := ts.ZExt(bl, bigBits)
+	zero := ts.Const(bigBits, 0)
+	c1 := ts.Cmp(OpUle, bl, ts.Const(64, bigBits))
+	c2 := ts.Cmp(OpEq, ts.Bin(OpLShr, mag, blw), zero)
+	c3 := ts.Or(ts.Cmp(OpEq, bl, ts.Const(64, 0)),
+		ts.Not(ts.Cmp(OpEq, ts.Bin(OpLShr, mag, ts.Bin(OpSub, blw, ts.Const(bigBits, 1))), zero)))
+	ex.assume(ts.And(c1, ts.And(c2, c3)))
+	return bl
+}
+
+// bigByteLen: the number of bytes of the minimal big-endian representation, as a chain over bytes.
+func (ex *Exec) bigByteLen(mag *Term) *Term {
+	if mag.IsConst() {
+		return ex.ts.Const(64, uint64((mag.Big().BitLen()+7)/8))
+	}
+	ts := ex.ts
+	r := ts.Const(64, 0)
+	zero := ts.Const(8, 0)
+	for i := 0; i < bigBits/8; i++ {
+		nz := ts.Not(ts.Cmp(OpEq, ts.Extract(mag, uint16(8*i+7), uint16(8*i)), zero))
+		r = ts.Ite(nz, ts.Const(64, uint64(i+1)), r)
+	}
+	return r
+}
+
+func registerBigIntrinsics() {
+	recv := func(name string) string { return "(*math/big.Int)." + name }
+	intrinsics[recv("SetInt64")] = func(ex *Exec, fn *ssa.Function, a []Value) (Value, *Panic) {
+		ex.stubsUsed["math/big.Int = sign + 256-bit magnitude (contract model)"] = true
+		z, pan := ex.bigStruct(a[0], "SetInt64")
+		if pan != nil {
+			return nil, pan
+		}
+		x := a[1].(*Term)
+		neg, mag := ex.bigFromSigned(ex.ts.SExt(x, bigBits+16))
+		ex.bigSet(z, neg, mag)
+		return a[0], nil
+	}
+	intrinsics[recv("SetUint64")] = func(ex *Exec, fn *ssa.Function, a []Value) (Value, *Panic) {
+		ex.stubsUsed["math/big.Int = sign + 256-bit magnitude (contract model)"] = true
+		z, pan := ex.bigStruct(a[0], "SetUint64")
+		if pan != nil {
+			return nil, pan
+		}
+		ex.bigSet(z, ex.ts.Fals, ex.ts.ZExt(a[1].(*Term), bigBits))
+		return a[0], nil
+	}
+	intrinsics[recv("SetBytes")] = func(ex *Exec, fn *ssa.Function, a []Value) (Value, *Panic) {
+		ex.stubsUsed["math/big.Int = sign + 256-bit magnitude (contract model)"] = true
+		z, pan := ex.bigStruct(a[0], "SetBytes")
+		if pan != nil {
+			return nil, pan
+		}
+		buf := a[1].(*SliceV)
+		if buf.len > bigBits/8 {
+			panic(ex.unsupported("big.Int.SetBytes longer than the model width"))
+		}
+		mag := ex.ts.Const(bigBits, 0)
+		for i := 0; i < buf.len; i++ {
+			b := ex.ts.ZExt(buf.arr.e[buf.off+i].(*Term), bigBits)
+			mag = ex.ts.Bin(OpOr, ex.ts.Bin(OpShl, mag, ex.ts.Const(bigBits, 8)), b)
+		}
+		if buf.arr != nil {
+			ex.noteRead(buf.arr.own)
+		}
+		ex.bigSet(z, ex.ts.Fals, mag)
+		return a[0], nil
+	}
+	intrinsics["math/big.NewInt"] = func(ex *Exec, fn *ssa.Function, a []Value) (Value, *Panic) {
+		ex.stubsUsed["math/big.Int = sign + 256-bit magnitude (contract model)"] = true
+		pt := fn.Signature.Results().At(0).Type().(*types.Pointer)
+		p := ex.alloc(pt.Elem(), "big.NewInt")
+		sv := p.base.get(p.idx).(*StructV)
+		neg, mag := ex.bigFromSigned(ex.ts.SExt(a[0].(*Term), bigBits+16))
+		ex.bigSet(sv, neg, mag)
+		return p, nil
+	}
+	intrinsics[recv("Lsh")] = func(ex *Exec, fn *ssa.Function, a []Value) (Value, *Panic) {
+		z, pan := ex.bigStruct(a[0], "Lsh")
+		if pan != nil {
+			return nil, pan
+		}
+		x, pan := ex.bigStruct(a[1], "Lsh")
+		if pan != nil {
+			return nil, pan
+		}
+		n := a[2].(*Term) // uint
+		neg, mag := ex.bigGet(x)
+		ts := ex.ts
+		// a shift count beyond anything a match field can hold makes the real implementation
+		// allocate count/64 words: report it as an allocation the input controls
+		huge := ts.And(ts.Cmp(OpUlt, ts.Const(64, 1<<20), n), ts.Not(ts.Cmp(OpEq, mag, ts.Const(bigBits, 0))))
+		if !huge.IsFalse() && ex.branch(huge) {
+			ex.reportSite("alloc", "oversize", "big.Int.Lsh by an input-controlled count above 2^20 bits")
+			ex.endPath("alloc-limit")
+		}
+		nw := ts.ZExt(n, bigBits)
+		res := ts.Bin(OpShl, mag, nw)
+		// bits shifted out of the model's width: out of bound
+		lost := ts.Not(ts.Cmp(OpEq, ts.Bin(OpLShr, res, nw), mag))
+		if !lost.IsFalse() {
+			if ex.branch(lost) {
+				ex.inconcl = append(ex.inconcl, "big.Int.Lsh result exceeds the 256-bit model")
+				ex.endPath("big-model-bound")
+			}
+		}
+		ex.bigSet(z, neg, res)
+		return a[0], nil
+	}
+	intrinsics[recv("BitLen")] = func(ex *Exec, fn *ssa.Function, a []Value) (Value, *Panic) {
+		x, pan := ex.bigStruct(a[0], "BitLen")
+		if pan != nil {
+			return nil, pan
+		}
+		_, mag := ex.bigGet(x)
+		return ex.bigBitLen(mag), nil
+	}
+	intrinsics[recv("And")] = func(ex *Exec, fn *ssa.Function, a []Value) (Value, *Panic) {
+		z, pan := ex.bigStruct(a[0], "And")
+		if pan != nil {
+			return nil, pan
+		}
+		x, pan := ex.bigStruct(a[1], "And")
+		if pan != nil {
+			return nil, pan
+		}
+		y, pan := ex.bigStruct(a[2], "And")
+		if pan != nil {
+			return nil, pan
+		}
+		ts := ex.ts
+		xn, xm := ex.bigGet(x)
+		yn, ym := ex.bigGet(y)
+		// two's complement semantics on infinite precision: compute in bigBits+16 bits
+		r := ts.Bin(OpAnd, ex.bigSigned(xn, xm), ex.bigSigned(yn, ym))
+		neg, mag := ex.bigFromSigned(r)
+		ex.bigSet(z, neg, mag)
+		return a[0], nil
+	}
+	intrinsics[recv("Sub")] = func(ex *Exec, fn *ssa.Function, a []Value) (Value, *Panic) {
+		z, pan := ex.bigStruct(a[0], "Sub")
+		if pan != nil {
+			return nil, pan
+		}
+		x, pan := ex.bigStruct(a[1], "Sub")
+		if pan != nil {
+			return nil, pan
+		}
+		y, pan := ex.bigStruct(a[2], "Sub")
+		if pan != nil {
+			return nil, pan
+		}
+		xn, xm := ex.bigGet(x)
+		yn, ym := ex.bigGet(y)
+		r := ex.ts.Bin(OpSub, ex.bigSigned(xn, xm), ex.bigSigned(yn, ym))
+		neg, mag := ex.bigFromSigned(r)
+		ex.bigSet(z, neg, mag)
+		return a[0], nil
+	}
+	intrinsics[recv("Cmp")] = func(ex *Exec, fn *ssa.Function, a []Value) (Value, *Panic) {
+		x, pan := ex.bigStruct(a[0], "Cmp")
+		if pan != nil {
+			return nil, pan
+		}
+		y, pan := ex.bigStruct(a[1], "Cmp")
+		if pan != nil {
+			return nil, pan
+		}
+		ts := ex.ts
+		xn, xm := ex.bigGet(x)
+		yn, ym := ex.bigGet(y)
+		xs, ys := ex.bigSigned(xn, xm), ex.bigSigned(yn, ym)
+		lt := ts.Cmp(OpSlt, xs, ys)
+		eq := ts.Cmp(OpEq, xs, ys)
+		return ts.Ite(lt, ts.Const(64, ^uint64(0)), ts.Ite(eq, ts.Const(64, 0), ts.Const(64, 1))), nil
+	}
+	intrinsics[recv("Sign")] = func(ex *Exec, fn *ssa.Function, a []Value) (Value, *Panic) {
+		x, pan := ex.bigStruct(a[0], "Sign")
+		if pan != nil {
+			return nil, pan
+		}
+		ts := ex.ts
+		n, m := ex.bigGet(x)
+		z := ts.Cmp(OpEq, m, ts.Const(bigBits, 0))
+		return ts.Ite(z, ts.Const(64, 0), ts.Ite(n, ts.Const(64, ^uint64(0)), ts.Const(64, 1))), nil
+	}
+	intrinsics[recv("Bytes")] = func(ex *Exec, fn *ssa.Function, a []Value) (Value, *Panic) {
+		x, pan := ex.bigStruct(a[0], "Bytes")
+		if pan != nil {
+			return nil, pan
+		}
+		ts := ex.ts
+		_, mag := ex.bigGet(x)
+		n := int(ex.concretize(ex.bigByteLen(mag), "big.Int.Bytes length"))
+		arr := ex.newArray(types.Typ[types.Byte], n, "big.Int.Bytes")
+		for i := 0; i < n; i++ {
+			lo := uint16(8 * (n - 1 - i))
+			arr.e[i] = ts.Extract(mag, lo+7, lo)
+		}
+		return &SliceV{arr: arr, off: 0, len: n, cap: n}, nil
+	}
+	intrinsics[recv("Uint64")] = func(ex *Exec, fn *ssa.Function, a []Value) (Value, *Panic) {
+		x, pan := ex.bigStruct(a[0], "Uint64")
+		if pan != nil {
+			return nil, pan
+		}
+		_, mag := ex.bigGet(x)
+		return ex.ts.Extract(mag, 63, 0), nil
+	}
+	intrinsics[recv("Set")] = func(ex *Exec, fn *ssa.Function, a []Value) (Value, *Panic) {
+		z, pan := ex.bigStruct(a[0], "Set")
+		if pan != nil {
+			return nil, pan
+		}
+		x, pan := ex.bigStruct(a[1], "Set")
+		if pan != nil {
+			return nil, pan
+		}
+		n, m := ex.bigGet(x)
+		ex.bigSet(z, n, m)
+		return a[0], nil
+	}
+}
+
+// ---- reflect.Value, as far as conv() uses it ----
+
+type reflVal struct {
+	t types.Type
+	v Value
+}
+
+// reflect.Kind values
+var reflKinds = map[types.BasicKind]uint64{
+	types.Bool: 1, types.Int: 2, types.Int8: 3, types.Int16: 4, types.Int32: 5, types.Int64: 6,
+	types.Uint: 7, types.Uint8: 8, types.Uint16: 9, types.Uint32: 10, types.Uint64: 11, types.Uintptr: 12,
+	types.String: 24,
+}
+
+func registerReflectIntrinsics() {
+	rv := func(v Value) *reflVal {
+		o, ok := v.(*OpaqueV)
+		if !ok || o.kind != "reflect.Value" {
+			return nil
+		}
+		return o.x.(*reflVal)
+	}
+	intrinsics["reflect.ValueOf"] = func(ex *Exec, fn *ssa.Function, a []Value) (Value, *Panic) {
+		ex.stubsUsed["reflect.ValueOf/Kind/Int/Uint/Bytes/Interface from the concrete dynamic type"] = true
+		iv := a[0].(*IfaceV)
+		return &OpaqueV{kind: "reflect.Value", x: &reflVal{t: iv.t, v: iv.v}}, nil
+	}
+	intrinsics["(reflect.Value).Kind"] = func(ex *Exec, fn *ssa.Function, a []Value) (Value, *Panic) {
+		r := rv(a[0])
+		k := uint64(0)
+		if r != nil && r.t != nil {
+			switch u := r.t.Underlying().(type) {
+			case *types.Basic:
+				k = reflKinds[u.Kind()]
+			case *types.Slice:
+				k = 23
+			case *types.Pointer:
+				k = 22
+			case *types.Array:
+				k = 17
+			case *types.Struct:
+				k = 25
+			case *types.Map:
+				k = 21
+			case *types.Interface:
+				k = 20
+			}
+		}
+		return ex.ts.Const(64, k), nil
+	}
+	intrinsics["(reflect.Value).Int"] = func(ex *Exec, fn *ssa.Function, a []Value) (Value, *Panic) {
+		r := rv(a[0])
+		t, ok := r.v.(*Term)
+		if !ok {
+			return nil, ex.explicitPanic(&IfaceV{t: types.Typ[types.String], v: StrV("reflect: call of reflect.Value.Int on non-int Value")})
+		}
+		return ex.ts.Resize(t, 64, true), nil
+	}
+	intrinsics["(reflect.Value).Uint"] = func(ex *Exec, fn *ssa.Function, a []Value) (Value, *Panic) {
+		r := rv(a[0])
+		t, ok := r.v.(*Term)
+		if !ok {
+			return nil, ex.explicitPanic(&IfaceV{t: types.Typ[types.String], v: StrV("reflect: call of reflect.Value.Uint on non-uint Value")})
+		}
+		return ex.ts.Resize(t, 64, false), nil
+	}
+	intrinsics["(reflect.Value).Bytes"] = func(ex *Exec, fn *ssa.Function, a []Value) (Value, *Panic) {
+		r := rv(a[0])
+		s, ok := r.v.(*SliceV)
+		if !ok {
+			return nil, ex.explicitPanic(&IfaceV{t: types.Typ[types.String], v: StrV("reflect: call of reflect.Value.Bytes on non-slice Value")})
+		}
+		return s, nil
+	}
+	intrinsics["(reflect.Value).Interface"] = func(ex *Exec, fn *ssa.Function, a []Value) (Value, *Panic) {
+		r := rv(a[0])
+		if r.t == nil {
+			return nilIface, nil
+		}
+		return &IfaceV{t: r.t, v: r.v}, nil
+	}
+	_ = fmt.Sprintf
+}
